@@ -247,6 +247,25 @@ func checkC06(c *Check) {
 			"the login redirect draws "+m+" exactly once",
 			fmt.Sprintf("the login redirect calls %s %d times (expected exactly one draw per identifier)", m, len(calls)))
 	}
+	// what is sent and stored is exactly what was drawn: no flow from a previously issued (and disclosed) value
+	m := getHModel(P)
+	if requireModel(c, "C06.R3", m, "redirect.gens", "redirect.setstate", "redirect.query", "redirect.cookie") {
+		is := func(v ssa.Value, call *ssa.Call) bool { return v != nil && call != nil && resolveCell(stripConv(v)) == ssa.Value(call) }
+		single := func(vs []ssa.Value) ssa.Value {
+			if len(vs) == 1 {
+				return vs[0]
+			}
+			return nil
+		}
+		chk := func(name string, ok bool) {
+			c.Obl(ok, "C06.R3", "fresh-value-used/"+name, P.Pos(R.Redirect.Pos()), name+" of this login is exactly this activation's generator draw",
+				name+" sent or stored by the login redirect can come from somewhere else than this activation's generator draw (e.g. carried over from an earlier, already disclosed login)")
+		}
+		chk("state", is(m.RedirQuery["state"], m.GenState) && is(single(m.RedirStateLit["State"]), m.GenState))
+		chk("nonce", is(m.RedirQuery["nonce"], m.GenNonce) && is(single(m.RedirStateLit["Nonce"]), m.GenNonce))
+		chk("verifier", is(single(m.RedirStateLit["CodeVerifier"]), m.GenVerifier))
+		chk("session id", is(m.RedirCookie.Common().Args[1], m.GenSID))
+	}
 	if c.Tier == "thorough" && P.Whole {
 		// follow oauth2.GenerateVerifier into the dependency
 		c.extra["verifier_followed_into_dependency"] = true
